@@ -407,7 +407,7 @@ func (fr *Frame) appendOp(cc *ssa.CallCommon, args []Value, st *State, pc Term, 
 	arr := m.Alloc(st, "apparr")
 	newCap := u.c.Fresh("appcap", SInt)
 	u.c.Assume(Ge(newCap, newLen))
-	u.c.Assume(Le(newCap, IntLit(1<<50)))
+	u.c.Assume(Le(newCap, IntLit(1<<47)))
 	p := PtrV{Base: arr, Obj: elem, Arr: true}
 	for _, lf := range leaves(elem) {
 		name, _ := compName(p, lf.Path)
@@ -421,10 +421,21 @@ func (fr *Frame) appendOp(cc *ssa.CallCommon, args []Value, st *State, pc Term, 
 			newInner = oldInner
 			tInner := Select(comp, t.Arr)
 			for i := int64(0); i < tl.Int64(); i++ {
-				newInner = Store(newInner, Add(s.Len, IntLit(i)), Select(tInner, Add(t.Off, IntLit(i))))
+				newInner = Store(newInner, Add(s.Len, IntLit(i)), Select(tInner, ElemIdx(t.Off, IntLit(i))))
 			}
 		} else {
 			ni := u.c.Fresh("appinner", innerS)
+			if tlLit && tl.IsInt64() && tl.Int64() <= 4 && !tIsString {
+				// old part copied (quantified), new elements stored explicitly
+				u.c.Raw(fmt.Sprintf("(assert (forall ((i Int)) (! (=> (and (<= 0 i) (< i %s)) (= (select %s i) (select %s (sidx %s i)))) :pattern ((select %s i)))))",
+					s.Len.S, ni.S, oldInner.S, s.Off.S, ni.S))
+				tInner := Select(comp, t.Arr)
+				for i := int64(0); i < tl.Int64(); i++ {
+					u.c.Assume(Eq(Select(ni, Add(s.Len, IntLit(i))), Select(tInner, ElemIdx(t.Off, IntLit(i)))))
+				}
+				st.heap[name] = u.c.Def(name, Store(comp, arr, ni))
+				continue
+			}
 			if !u.preciseContent() {
 				u.c.Note("append of a slice of unknown length: contents abstracted (opt content=precise to model them)")
 				st.heap[name] = u.c.Def(name, Store(comp, arr, ni))
@@ -437,7 +448,7 @@ func (fr *Frame) appendOp(cc *ssa.CallCommon, args []Value, st *State, pc Term, 
 					t.Len.S, ni.S, s.Len.S, tstr.S, ni.S, s.Len.S))
 			} else {
 				tInner := Select(comp, t.Arr)
-				u.c.Raw(fmt.Sprintf("(assert (forall ((i Int)) (! (=> (and (<= 0 i) (< i %s)) (= (select %s (+ %s i)) (select %s (+ %s i)))) :pattern ((select %s (+ %s i))))))",
+				u.c.Raw(fmt.Sprintf("(assert (forall ((i Int)) (! (=> (and (<= 0 i) (< i %s)) (= (select %s (+ %s i)) (select %s (sidx %s i)))) :pattern ((select %s (+ %s i))))))",
 					t.Len.S, ni.S, s.Len.S, tInner.S, t.Off.S, ni.S, s.Len.S))
 			}
 			newInner = ni
@@ -463,7 +474,7 @@ func (fr *Frame) copyOp(cc *ssa.CallCommon, args []Value, st *State, pc Term) Va
 	case SliceV:
 		srcLen = s.Len
 		srcAt = func(comp Term, i string) string {
-			return fmt.Sprintf("(select (select %s %s) (+ %s %s))", comp.S, s.Arr.S, s.Off.S, i)
+			return fmt.Sprintf("(select (select %s %s) (sidx %s %s))", comp.S, s.Arr.S, s.Off.S, i)
 		}
 	case Scalar:
 		srcLen = app(SInt, "strlen", s.T)
@@ -485,7 +496,7 @@ func (fr *Frame) copyOp(cc *ssa.CallCommon, args []Value, st *State, pc Term) Va
 			st.heap[name] = u.c.Def(name, Ite(Gt(n, IntLit(0)), Store(comp, d.Arr, ni), comp))
 			continue
 		}
-		u.c.Raw(fmt.Sprintf("(assert (forall ((i Int)) (! (=> (and (<= 0 i) (< i %s)) (= (select %s (+ %s i)) %s)) :pattern ((select %s (+ %s i))))))",
+		u.c.Raw(fmt.Sprintf("(assert (forall ((i Int)) (! (=> (and (<= 0 i) (< i %s)) (= (select %s (sidx %s i)) %s)) :pattern ((select %s (sidx %s i))))))",
 			n.S, ni.S, d.Off.S, srcAt(comp, "i"), ni.S, d.Off.S))
 		u.c.Raw(fmt.Sprintf("(assert (forall ((i Int)) (! (=> (or (< i %s) (>= i (+ %s %s))) (= (select %s i) (select %s i))) :pattern ((select %s i)))))",
 			d.Off.S, d.Off.S, n.S, ni.S, oldInner.S, ni.S))
